@@ -429,6 +429,13 @@ def glyphWidthV (widths : W2Map) (dw2 : Option (Rat × Rat)) (cid : Nat) : Rat :
   | some (.num v, _, _) => v
   | _ => (dw2.getD Gen.CIDFont.DW2_DEFAULT).2
 
+/-- `PDFCIDFont.char_disp(cid)` of a vertical font: the position vector `(vx, vy)` of the font's own `W2`
+entry, else `default_disp = (None, DW2[0])`. -/
+def glyphDispV (widths : W2Map) (dw2 : Option (Rat × Rat)) (cid : Nat) : Option Rat × Rat :=
+  match widths.lookup (cid : Rat) with
+  | some (_, .num vx, .num vy) => (some vx, vy)
+  | _ => (none, (dw2.getD Gen.CIDFont.DW2_DEFAULT).1)
+
 /-! ## Pen movement of `render_string_horizontal / _vertical` (multibyte font, `Tc = 0`, `Tz = 100`) -/
 
 inductive SeqItem where
